@@ -1566,7 +1566,7 @@ func (e *CoreExtension) filterSlice(value interface{}, args ...interface{}) (int
 			// No length given: everything from start to the end
 		} else if length >= 0 {
 			end = start + length
-			if end > runeCount {
+			if end > runeCount || end < start { // end < start: the sum overflowed
 				end = runeCount
 			}
 		} else if length < 0 {
@@ -1600,7 +1600,7 @@ func (e *CoreExtension) filterSlice(value interface{}, args ...interface{}) (int
 			// No length given: everything from start to the end
 		} else if length >= 0 {
 			end = start + length
-			if end > count {
+			if end > count || end < start { // end < start: the sum overflowed
 				end = count
 			}
 		} else if length < 0 {
@@ -1641,7 +1641,7 @@ func (e *CoreExtension) filterSlice(value interface{}, args ...interface{}) (int
 			// No length given: everything from start to the end
 		} else if length >= 0 {
 			end = start + length
-			if end > runeCount {
+			if end > runeCount || end < start { // end < start: the sum overflowed
 				end = runeCount
 			}
 		} else if length < 0 {
@@ -1675,7 +1675,7 @@ func (e *CoreExtension) filterSlice(value interface{}, args ...interface{}) (int
 			// No length given: everything from start to the end
 		} else if length >= 0 {
 			end = start + length
-			if end > count {
+			if end > count || end < start { // end < start: the sum overflowed
 				end = count
 			}
 		} else if length < 0 {
